@@ -19,6 +19,7 @@ pub open spec fn cap_of(opt: &BuildOption, dimensions: usize) -> u64 {
     (match opt.split_after { Some(s) => s, None => dimensions }) as u64
 }
 //@include lib/count_specs.rs
+//@include lib/inv_specs.rs
 //@include lib/build_specs.rs
 
 //@extract src/writer.rs | - | target_n_trees
